@@ -15,11 +15,13 @@ type Block = cfg.Block
 // Graph is the control-flow graph of one function body (go/cfg) with the
 // helpers the path rules need.
 type Graph struct {
-	Fn     *Fn
-	C      *cfg.CFG
-	Blocks []*cfg.Block // live blocks
-	Entry  *cfg.Block
-	preds  map[*cfg.Block][]*cfg.Block
+	Fn        *Fn
+	C         *cfg.CFG
+	Blocks    []*cfg.Block // live blocks
+	Entry     *cfg.Block
+	preds     map[*cfg.Block][]*cfg.Block
+	flags     *[]types.Object
+	flagIdent map[types.Object]*ast.Ident
 }
 
 // Preds returns the predecessor map over live blocks.
@@ -107,6 +109,8 @@ func InspectNoLit(n ast.Node, fn func(ast.Node) bool) {
 // satisfying pred.
 func (g *Graph) Find(pred func(n ast.Node) bool) []Site {
 	var out []Site
+	g.Fn.searching++
+	defer func() { g.Fn.searching-- }()
 	for _, b := range g.Blocks {
 		for i, top := range b.Nodes {
 			InspectNoLit(top, func(n ast.Node) bool {
@@ -131,9 +135,6 @@ type Fact struct {
 	E   ast.Expr
 	Val bool
 }
-
-// Guard recognises an atomic fact.
-type Guard func(f Fact) bool
 
 // edgeCond returns the condition controlling the edge b -> b.Succs[k] as a
 // (expr, value) pair, or nil when the edge is unconditional or not value based
@@ -235,16 +236,6 @@ func (g *Graph) expandAtoms(in []Fact, depth int) []Fact {
 	return out
 }
 
-// EdgeImplies reports whether taking the edge implies the guard.
-func (g *Graph) EdgeImplies(b *cfg.Block, k int, guard Guard) bool {
-	for _, f := range g.EdgeFacts(b, k) {
-		if guard(f) {
-			return true
-		}
-	}
-	return false
-}
-
 // reachable computes the blocks reachable from the entry when every edge for
 // which cut returns true is deleted.
 func (g *Graph) reachable(cut func(b *cfg.Block, k int) bool) map[*cfg.Block]bool {
@@ -268,14 +259,6 @@ func (g *Graph) reachable(cut func(b *cfg.Block, k int) bool) map[*cfg.Block]boo
 		}
 	}
 	return seen
-}
-
-// Dominated reports whether every path from the function entry to the site
-// takes a branch edge that implies the guard (the site becomes unreachable once
-// those edges are deleted).
-func (g *Graph) Dominated(s Site, guard Guard) bool {
-	seen := g.reachable(func(b *cfg.Block, k int) bool { return g.EdgeImplies(b, k, guard) })
-	return !seen[s.B]
 }
 
 // DominatedAll reports whether the site is dominated by each of the guards.
@@ -552,8 +535,11 @@ func (g *Graph) AfterLoop(s Site, rs *ast.RangeStmt) bool {
 func (f *Fn) RangeLoops(pred func(x ast.Expr) bool) []*ast.RangeStmt {
 	var out []*ast.RangeStmt
 	InspectNoLit(f.Body, func(n ast.Node) bool {
-		if rs, ok := n.(*ast.RangeStmt); ok && pred(rs.X) {
-			out = append(out, rs)
+		if rs, ok := n.(*ast.RangeStmt); ok {
+			// the ranged expression itself, or the value of a local it was hoisted into
+			if pred(rs.X) || (f.Resolve(rs.X) != rs.X && pred(f.Resolve(rs.X))) {
+				out = append(out, rs)
+			}
 		}
 		return true
 	})
